@@ -4,7 +4,7 @@ standalone, co-simulated clock cycle by clock cycle against lean/LunaVerif/Model
 no token detector: the `EndpointInterface` is driven directly), another driver, another monitor.
 
 DUT      `USBControlEndpoint(utmi, endpoint_number, max_packet_size)` with `add_standard_request_handlers`
-         (block-RAM descriptor handler) and a `USBDataPacketCRC` wired to its `data_crc` port as device.py does.
+         (block-RAM or distributed descriptor handler) and a `USBDataPacketCRC` wired to its `data_crc` port as device.py does.
 Driven   the tokenizer record (pid / endpoint / new_token / ready_for_response / is_in / is_out / is_setup / is_ping),
          the UTMI receive lines (so that the real setup decoder produces `packet.received`, the fields and `ack`),
          `timer.tx_allowed`, `speed`, `rx_ready_for_response`, `handshakes_in.*`, `active_config`, `tx.ready`.
@@ -50,7 +50,7 @@ class _Built:
     pass
 
 
-def build(desc_table, ep_num, mps):
+def build(desc_table, ep_num, mps, avoid_blockram=False):
     """Elaborates the real control endpoint; returns the fragment to simulate and the signals to drive / sample.
     The objects created inside `elaborate` (setup decoder, transmitter, descriptor handler, the two FSMs) are
     captured by wrapping the instances' `elaborate` -- observation only, nothing is changed."""
@@ -66,7 +66,7 @@ def build(desc_table, ep_num, mps):
     coll = DeviceDescriptorCollection(automatic_language_descriptor=False)
     for t, i, b in desc_table:
         coll.add_descriptor(bytes(b), index=i, descriptor_type=t)
-    ep.add_standard_request_handlers(coll, avoid_blockram=False)
+    ep.add_standard_request_handlers(coll, avoid_blockram=bool(avoid_blockram))
     handler = ep._request_handlers[0]
     cap = {}
 
@@ -355,7 +355,9 @@ class MicroHost:
 def make_cyc_spec(rng):
     shape = rng.weighted([(4, "std"), (3, "long"), (2, "sparse"), (1, "tiny")])
     return {"shape": shape, "desc": DH.descriptor_table(shape, rng), "eps": [], "handlers": [],
-            "ep_num": rng.weighted([(5, 0), (1, rng.range(1, 15))]), "mps": rng.choice([64, 64, 64, 32, 16, 8])}
+            "ep_num": rng.weighted([(5, 0), (1, rng.range(1, 15))]), "mps": rng.choice([64, 64, 64, 32, 16, 8]),
+            # the descriptor handler is an INPUT of the model: exercise both implementations (their stall / stream timing differs)
+            "avoid_blockram": int(rng.chance(30))}
 
 
 def simulate(b, host_gen, max_cycles):
@@ -409,8 +411,18 @@ def monitor(b, ep_num, rows_d, rows_i, rows_o, consistent_flags):
             fails.append({"cycle": t, "sig": sig, "what": "cycle %d: %s" % (t, what)})
 
     n = len(rows_o)
+    armed = False                  # ghost of Lemmas/C07CycInv.lean: a SETUP token strobe was the last token strobe
     for t in range(n):
         d, si, o = rows_d[t], rows_i[t], rows_o[t]
+        # the environment contract assumed by cyc_stage_follows_setup / cyc_requests_follow_setup, on the real setup decoder
+        if si[0] and not armed:
+            fail(t, "c07cyc-env-received-unarmed", "setup decoder reported a packet although no SETUP token strobe precedes it")
+        if t > 0 and not si[0] and tuple(si[2:9]) != tuple(rows_i[t - 1][2:9]):
+            fail(t, "c07cyc-env-setup-regs-changed", "the SetupPacket registers changed without packet.received")
+        if d["new_token"]:
+            armed = d["pid"] == U.PID_SETUP
+        elif si[0]:
+            armed = False
         stage, hst = ST[o[O["stage"]]], HS[o[O["hstate"]]]
         own_in = d["endpoint"] == ep_num and d["is_in"] == 1
         su_type, su_value = si[3], si[6]
@@ -466,7 +478,7 @@ def run_cyc(desc):
     rng = Rng(desc["seed"])
     spec = desc.get("spec") or make_cyc_spec(rng.fork("spec"))
     ep_num, mps = spec["ep_num"], spec["mps"]
-    b = build(spec["desc"], ep_num, mps)
+    b = build(spec["desc"], ep_num, mps, spec.get("avoid_blockram", 0))
     tags = set()
     host = MicroHost(rng.fork("host"), spec, ep_num, tags, desc.get("profile", "c07"))
     consistent = []
@@ -508,6 +520,7 @@ def run_cyc(desc):
     if any(o[NAMES_OUT.index("startPos")] for o in outputs):
         tags.add("seen:startPos>0")
     tags.add("mps:%d" % mps)
+    tags.add("descriptor-handler:%s" % ("distributed" if spec.get("avoid_blockram") else "block"))
     tags.add("ep:%s" % ("0" if ep_num == 0 else "other"))
     d2 = dict(desc)
     d2["spec"] = spec
